@@ -507,6 +507,14 @@ func ruleTokens(c *Ctx) {
 		}
 		produced[e.tok] = true
 	}
+	// tokens that come out of a rune -> token table instead of a return statement (decided by folding ScanFunc)
+	if lt, err := c.lexerTables(); err == nil {
+		for _, tok := range lt.runeToken {
+			if !strings.HasPrefix(tok, "<") {
+				produced[tok] = true
+			}
+		}
+	}
 	for _, t := range sortedKeys(used) {
 		c.site(1)
 		switch {
